@@ -116,6 +116,24 @@ def fault_variants(runner, hist, max_variants=None, rng=None):
     return variants
 
 
+def known_findings_for(pid):
+    """`finding:` lines of known_findings.txt that concern this property (never written at run time)"""
+    out = []
+    f = ROOT / "known_findings.txt"
+    if not f.exists():
+        return out
+    for line in f.read_text().split("\n"):
+        if not line.startswith("finding:"):
+            continue
+        m = re.match(r"finding: property=(\S+) id=(\S+) container=(\S+) witness=(\S+) also=(\S*) what=(.*)$", line)
+        if not m:
+            continue
+        propsl = [m.group(1)] + [x for x in m.group(5).split(",") if x]
+        if pid in propsl:
+            out.append(dict(id=m.group(2), container=m.group(3), witness=m.group(4).split(","), what=m.group(6)))
+    return out
+
+
 def growth_hook(container):
     """C20: appending n elements triggers only O(log n) buffer reallocations"""
     import math
@@ -280,11 +298,24 @@ def run_check(pid, tier, seed, replay=None):
             stats.append(r["stats"])
         all_samples += r["samples"][:2]
         lean["problems"] += r["problems"]
-    # ---- known-finding probes
-    for kf in P.get("known_findings", []):
-        for line in kf():
+    # ---- known-finding probes: replay each recorded witness; still failing -> KNOWN-FINDING line
+    for kf in known_findings_for(pid):
+        still = False
+        for w in kf["witness"]:
+            try:
+                container, ops = vlib.read_replay(ROOT / w)
+                r = Runner(container, props.container_opts(container))
+                res = r.run([ops])
+                if any(d.layer in ("L1", "L2") for _, ds in res for d in ds):
+                    still = True
+            except Exception as e:
+                lean["problems"].append(f"known-finding probe {kf['id']}: {str(e)[:200]}")
+        if still:
+            line = f"KNOWN-FINDING: property={pid} {kf['id']} {kf['what']}"
             known_lines.append(line)
             print(line, flush=True)
+        else:
+            known_lines.append(f"(finding {kf['id']} no longer reproduces on its recorded witness)")
 
     # ---- decide
     for bname, container, ops, diffs in violations[:3]:
